@@ -212,6 +212,7 @@ def run(ctx, rep) -> None:
     _r11_incomplete_branches(ctx, rep)
     _r12_after_stage_gate(ctx, rep)
     _r13_redirect(ctx, rep)
+    _r14_error_branch_marks_failed(ctx, rep)
     _r6(ctx, rep)
 
     # ---- R2 ----------------------------------------------------------------------------------------
@@ -796,3 +797,33 @@ def _r13_redirect(ctx, rep) -> None:
                           f"`{cal}` is reached with result.status in {bad} (dispatch branch {idx + 1}) and pushes CompleteTask({bad[0]}) WITHOUT JumpToStage; CompleteTask stores the task {bad[0]} and pushes nothing "
                           f"({where[0]}:{where[1]}): the stage stays RUNNING with nothing queued"), pr.file, c.lineno, disc=f"redirect:{cal}:{'+'.join(bad)}")
     rep.floor("CompleteTask pushes of task results", n, 2)
+
+
+# ---- R14: an error branch that hands its stage to CompleteStage fails it first ------------------------------------------------------
+def _r14_error_branch_marks_failed(ctx, rep) -> None:
+    """CompleteStage finalises a stage from determine_status(): a RUNNING stage whose tasks are NOT_STARTED is 'still in flight'
+    and the message is consumed. An except-branch that stores the stage unchanged and pushes CompleteStage therefore wedges it
+    (StartStage: a builder raising during planning). The branch must give the stage a halt status itself."""
+    prog, T = ctx.prog, ctx.st
+    rep.rule("C05.R14", "in the start_stage handlers every except-branch that stores a stage and pushes CompleteStage for it first gives it a halt status (validated setter): CompleteStage would otherwise compute RUNNING from the unplanned / NOT_STARTED tasks and drop the message")
+    HALT = T.sets["HALT_STATUSES"]
+    n = 0
+    for f in prog.all_functions():
+        if not f.module.name.startswith("stabilize.handlers.start_stage"):
+            continue
+        for h in [x for x in ast.walk(f.node) if isinstance(x, ast.ExceptHandler)]:
+            for g in [x for x in ast.walk(h) if isinstance(x, (ast.FunctionDef, ast.AsyncFunctionDef))] + [h]:
+                body_nodes = list(ast.walk(g))
+                pushes = [c for c in body_nodes if isinstance(c, ast.Call) and isinstance(c.func, ast.Name) and c.func.id == "CompleteStage"]
+                stores = [c for c in body_nodes if isinstance(c, ast.Call) and isinstance(c.func, ast.Attribute) and c.func.attr == "store_stage" and c.args and isinstance(c.args[0], ast.Name)]
+                if not pushes or not stores or (g is h and any(isinstance(x, (ast.FunctionDef, ast.AsyncFunctionDef)) and any(p_ in list(ast.walk(x)) for p_ in pushes) for x in ast.walk(h))):
+                    continue
+                n += 1
+                var = stores[0].args[0].id
+                marks = [c for c in body_nodes if isinstance(c, ast.Call) and isinstance(c.func, ast.Attribute) and c.func.attr == "set_stage_status" and len(c.args) >= 2 and norm(c.args[0]) == var
+                         and norm(c.args[1]).split(".")[-1] in HALT and getattr(c, "_ord", c.lineno) < getattr(stores[0], "_ord", stores[0].lineno)]
+                ok = bool(marks)
+                rep.check(ok, "C05.R14", f"{f.qualname}: error branch fails `{var}` before handing it to CompleteStage", f"set_stage_status({var}, {norm(marks[0].args[1])}) precedes the store" if ok else
+                          f"`{var}` is stored as it was read (RUNNING after the claim, tasks NOT_STARTED) and CompleteStage is pushed: CompleteStage computes RUNNING from the tasks, treats the message as 'children still in flight' and drops it - "
+                          "the stage stays RUNNING with an empty queue (a StageDefinitionBuilder that raises during planning)", f.file, stores[0].lineno, disc=f"error-branch-fails:{f.qualname}")
+    rep.floor("except-branches of start_stage that push CompleteStage", n, 1)
